@@ -170,7 +170,9 @@ type gen struct {
 }
 
 var plainKeys = []string{"a", "b", "k1", "name", "type", "content", "value", "list", "depth", "é", "日本", "😀k",
-	"a.b", "*", "#", "?x", "a|b", "@", "%", "sig natures", "signatures.x", "unsigned.y", "0", "-1", "", " ", "A", "Z", "_", "~", "\u007f", "\u2028"}
+	"a.b", "*", "#", "?x", "a|b", "@", "%", "sig natures", "signatures.x", "unsigned.y", "0", "-1", "", " ", "A", "Z", "_", "~", "\u007f", "\u2028",
+	// members that event handling strips or treats specially; JSON signing gives them no special role
+	"age_ts", "event_id", "outlier", "destinations", "origin", "prev_events", "auth_events", "redacts"}
 var nestedOnlyKeys = []string{"signatures", "unsigned", "hashes"}
 var escKeys = []string{"q\"q", "b\\s", "nl\nx", "ctl\x01", "tab\t", "\\", "\""}
 var caseKeys = []string{"Signatures", "UNSIGNED", "Unsigned", "unſigned", "ſignatures", "SIGNATURES"}
